@@ -924,7 +924,8 @@ def run_step(impl, idx, a, op, objs=None):
                     b[(numpy.array(rows, dtype=int),) + tuple(k[1:])] = k[0]
             st.expect = b
             idx.update(ents)
-            if shares(arrays_of(idx), arrays_of(ents)):
+            if not op.get("own_arrays") and shares(arrays_of(idx), arrays_of(ents)):
+                # (with own_arrays the operand's arrays ARE the receiver's: sharing is the premise, not a finding)
                 st.problems.append(("C06", "update:aliases-operand", "receiver shares row-id storage with the update dict"))
         elif o in ("union", "inter", "diff"):
             if op.get("as_index"):
